@@ -8,6 +8,7 @@ from __future__ import annotations
 
 import ast
 import inspect
+import os
 import random
 import re
 
@@ -25,6 +26,66 @@ KIND_NAMES[PAIR] = 'pair'
 def _fst():
     import fst
     return fst
+
+
+def fork_map(func, items, nchunks=48, procs=16):
+    """Parallel map without multiprocessing.Pool: contiguous chunks, ONE freshly forked process per chunk (no pfst state leaks
+    between chunks, deterministic chunk contents), results sent back over a pipe.  Pool(maxtasksperchild=1) was observed to end
+    a run with a BrokenPipeError raised while the pool was being torn down (worker re-population racing with terminate).
+    A chunk whose process dies or raises yields {'crash': ...} entries instead of killing the run."""
+    import multiprocessing as mp
+    import pickle
+    import traceback
+    from multiprocessing.connection import wait
+    items = list(items)
+    if not items:
+        return []
+    n = len(items)
+    size = max(1, -(-n // max(1, nchunks)))
+    chunks = [(i, items[i:i + size]) for i in range(0, n, size)]
+    ctx = mp.get_context('fork')
+    out = [None] * n
+    pending = list(reversed(chunks))
+    running = {}          # reader connection -> (process, start, length, buffer)
+
+    def child(conn, chunk):
+        try:
+            res = []
+            for x in chunk:
+                try:
+                    res.append(func(x))
+                except Exception:
+                    res.append({'crash': traceback.format_exc()[-1500:], 'rounds': [], 'skip': 'harness crash'})
+            conn.send_bytes(pickle.dumps(res, protocol=pickle.HIGHEST_PROTOCOL))
+        except BaseException:
+            try:
+                conn.send_bytes(pickle.dumps({'chunk_crash': traceback.format_exc()[-1500:]}))
+            except Exception:
+                pass
+        finally:
+            conn.close()
+            os._exit(0)
+
+    while pending or running:
+        while pending and len(running) < procs:
+            start, chunk = pending.pop()
+            r, w = ctx.Pipe(duplex=False)
+            p = ctx.Process(target=child, args=(w, chunk))
+            p.start()
+            w.close()
+            running[r] = (p, start, len(chunk))
+        for r in wait(list(running), timeout=5):
+            p, start, ln = running.pop(r)
+            try:
+                data = pickle.loads(r.recv_bytes())
+            except (EOFError, OSError) as e:
+                data = {'chunk_crash': f'worker process ended without a result ({type(e).__name__}), exit code {p.exitcode}'}
+            r.close()
+            p.join()
+            if isinstance(data, dict):
+                data = [{'crash': data['chunk_crash'], 'rounds': [], 'skip': 'harness crash'} for _ in range(ln)]
+            out[start:start + ln] = data
+    return out
 
 
 def fields_of(cls):
@@ -108,6 +169,30 @@ def links_ok(a):
     return True
 
 
+def same_as_source(a):
+    """The subtree `a` of another FST tree still is what the source of that tree says (types, lists, primitives): CPython
+    parse of the other tree's source, same path, same `ast.dump`.  Stands for the reparse of the copy that the repaired
+    `reconcile` does (`copy().verify()`), which notices primitives changed in the other tree (C13-F2)."""
+    f = getattr(a, 'f', None)
+    if f is None:
+        return False
+    root = f.root
+    if not isinstance(root.a, ast.Module):
+        return True
+    try:
+        n = ast.parse(root.src)
+        for af in root.child_path(f):
+            v = getattr(n, af.name)
+            n = v if af.idx is None else v[af.idx]
+        return ast.dump(n) == ast.dump(a)
+    except Exception:
+        return False
+
+
+def foreign_ok(a):
+    return links_ok(a) and same_as_source(a)
+
+
 class Ser:
     """One serialisation state per round (shared value / tree-id interning between the marked and the edited tree)."""
 
@@ -146,7 +231,7 @@ class Ser:
         sig = None
         if p is not None:
             sig = self.sigs.sig(type(p.a), '' if type(p.a) is ast.Dict else f.pfield.name)
-        return ['f', links_ok(x), tid, self.loc(f), sig]
+        return ['f', foreign_ok(x), tid, self.loc(f), sig]
 
     def pair_origin(self, k, v):
         """the conditions of `recurse_slice_dict` under which (key, value) is an element of a Dict of some FST tree"""
@@ -167,7 +252,7 @@ class Ser:
             return ['t', loc]
         self.foreign_seen = True
         tid = self.tids.setdefault(id(vf.root), len(self.tids) + 1)
-        ok = (k is None or links_ok(k)) and links_ok(v)
+        ok = (k is None or foreign_ok(k)) and foreign_ok(v)
         return ['f', ok, tid, loc, self.sigs.sig(ast.Dict, '')]
 
     def ser(self, x):
@@ -1188,22 +1273,24 @@ def snapshot_stmts(root):
     """for every statement: path (list of (field, idx)), chain of object ids from the root, ids of its subtree, dump"""
     out = []
 
-    def go(n, path, chain):
+    def go(n, path, chain, objs):
         for field, v in ast.iter_fields(n):
             if isinstance(v, list):
                 for i, c in enumerate(v):
                     if isinstance(c, ast.AST):
-                        visit(c, path + [(field, i)], chain)
+                        visit(c, path + [(field, i)], chain, objs)
             elif isinstance(v, ast.AST):
-                visit(v, path + [(field, None)], chain)
+                visit(v, path + [(field, None)], chain, objs)
 
-    def visit(c, path, chain):
+    def visit(c, path, chain, objs):
         ch = chain + [id(c)]
         if isinstance(c, ast.stmt):
-            out.append({'path': path, 'chain': ch, 'ids': [id(x) for x in ast.walk(c)], 'dump': ast.dump(c), 'node': c})
-        go(c, path, ch)
+            # `nodes` / `objs` keep every object alive: an id() of a freed node can be reused by a node created later
+            out.append({'path': path, 'chain': ch, 'ids': [id(x) for x in ast.walk(c)], 'dump': ast.dump(c), 'node': c,
+                        'nodes': list(ast.walk(c)), 'objs': objs + [c]})
+        go(c, path, ch, objs + [c])
 
-    go(root, [], [id(root)])
+    go(root, [], [id(root)], [root])
     return out
 
 
